@@ -10,7 +10,9 @@
 // private copies: every upstream scribbles over its payload), the context each
 // upstream is given (ends within 5 s), helper goroutines gone at quiescent
 // points (lib/leak), buffer-pool sanitizer, race detector (driver), start index
-// non-degeneracy, and a loopback variant with the real NewForward / config path.
+// non-degeneracy, a loopback variant with the real NewForward / config path, and
+// the error-path phase (errpath.go): unpackable queries, failing upstreams and
+// ending contexts mixed into concurrent traffic on several Forward instances.
 package main
 
 import (
@@ -607,9 +609,10 @@ func main() {
 		rep.Violation("poolsan-"+r.Kind, what, w)
 	})
 	sched.On("forward.result.delivered", hook)
-	rep.SetRule("one case = one Forward.Exec (or tag-subset exec) call on in-memory upstreams: |U| x concurrent x outcome per queried upstream {NOERROR,NXDOMAIN,SERVFAIL,REFUSED,error,garbage,never} x arrival order (forced through the forward.result.delivered hook) x point at which the caller's ctx ends {never, before the call, before the first arrival, between arrivals}; thorough enumerates |U| 1..4 x c {-1,0,1,2,3,5} x 7^n x n! x cancel points completely, plus sampled tag subsets / wider |U|,c; 'storm' cases release all upstreams at once and are judged against the union over orders; non-trivial = at least 2 exchanges whose outcomes differ, or a ctx that ends while exchanges are outstanding; distinct = list length, c, subset, arrival outcome sequence, order, cancel point")
+	rep.SetRule("one case = one Forward.Exec (or tag-subset exec) call on in-memory upstreams: |U| x concurrent x outcome per queried upstream {NOERROR,NXDOMAIN,SERVFAIL,REFUSED,error,garbage,never} x arrival order (forced through the forward.result.delivered hook) x point at which the caller's ctx ends {never, before the call, before the first arrival, between arrivals}; thorough enumerates |U| 1..4 x c {-1,0,1,2,3,5} x 7^n x n! x cancel points completely, plus sampled tag subsets / wider |U|,c; 'storm' cases release all upstreams at once and are judged against the union over orders; non-trivial = at least 2 exchanges whose outcomes differ, or a ctx that ends while exchanges are outstanding; distinct = list length, c, subset, arrival outcome sequence, order, cancel point; 'errpaths' phase: 12 Forward instances used in parallel (9 by one caller, 3 by 2-3 callers at once), every call drawn from query classes {12 packable size/shape classes from 47 bytes to > 64 KiB, 14 classes that cannot be packed: bad label/name/rcode/rdata early, late, beyond the 8 KiB scratch, beyond 64 KiB} x upstream outcomes {mostly good, all fail} x caller ctx {never ends, ended before, ends at the first upstream}; each round starts with error-path calls run one at a time; upstreams identify the call by its unique question name and compare bytes; distinct = class, |U|, c, callers, ctx, outcome vector")
 	rep.Assume("'arrives' = the helper goroutine's result has been taken by (or abandoned for) the collecting loop; observed through the add-only hook forward.result.delivered, which fires after that select")
 	rep.Assume("liveness clauses are restated as progress within watchdogs >= 10 s while the harness holds every other upstream (never releases it), 50 s for an upstream ctx that should end after 5 s")
+	rep.Assume("a message that cannot be packed has no wire form: whatever Exec does with it is accepted as long as nothing reaches an upstream, the call returns and the buffer pool is used correctly")
 	rep.Assume("'random start' is only checked for non-degeneracy (more than one / every position occurs as start)")
 	selfCheck()
 
